@@ -3,13 +3,15 @@
 (* Implementation-shaped model of concurrent writers on one connection     *)
 (* (C07): response.Write = Lock; hand the serialised message to the        *)
 (* transport in one or more transport Write calls, each of which may       *)
-(* stall; Unlock (diam/server.go).  UseLock = FALSE is the sensitivity     *)
-(* configuration (mutex removed).                                          *)
+(* stall; Unlock (diam/server.go).  Sensitivity configurations: UseLock =  *)
+(* FALSE (mutex removed); LockPerPart = TRUE (the mutex is taken for each  *)
+(* transport write and released in between: still one transport write at   *)
+(* a time, but another writer's message can land inside a long one).       *)
 (* The transport stream is a sequence of units [w, m, part]; a message is  *)
 (* Parts units long.                                                       *)
 (***************************************************************************)
 EXTENDS Integers, Sequences, FiniteSets, TLC
-CONSTANTS Writers, MsgsPerWriter, Parts, UseLock
+CONSTANTS Writers, MsgsPerWriter, Parts, UseLock, LockPerPart
 VARIABLES pc,       \* writer -> "idle" | "locked" | "inwrite" | "done"
           cur,      \* writer -> index of the message being written
           part,     \* writer -> next part to hand to the transport
@@ -19,7 +21,7 @@ VARIABLES pc,       \* writer -> "idle" | "locked" | "inwrite" | "done"
 vars == <<pc, cur, part, lock, stream, inflight>>
 Init == /\ pc = [w \in Writers |-> "idle"] /\ cur = [w \in Writers |-> 1] /\ part = [w \in Writers |-> 1]
         /\ lock = 0 /\ stream = <<>> /\ inflight = {}
-Acquire(w) == /\ pc[w] = "idle" /\ cur[w] <= MsgsPerWriter /\ (~UseLock \/ lock = 0)
+Acquire(w) == /\ pc[w] \in {"idle", "relock"} /\ cur[w] <= MsgsPerWriter /\ (~UseLock \/ lock = 0)
               /\ lock' = (IF UseLock THEN w ELSE lock) /\ pc' = [pc EXCEPT ![w] = "locked"]
               /\ UNCHANGED <<cur, part, stream, inflight>>
 \* enter a transport Write (it may stall here for any time)
@@ -29,7 +31,10 @@ Begin(w) == /\ pc[w] = "locked" /\ pc' = [pc EXCEPT ![w] = "inwrite"] /\ infligh
 End(w) == /\ pc[w] = "inwrite"
           /\ stream' = Append(stream, [w |-> w, m |-> cur[w], part |-> part[w]])
           /\ inflight' = inflight \ {w}
-          /\ IF part[w] < Parts THEN part' = [part EXCEPT ![w] = @ + 1] /\ pc' = [pc EXCEPT ![w] = "locked"] /\ UNCHANGED <<cur, lock>>
+          /\ IF part[w] < Parts
+             THEN /\ part' = [part EXCEPT ![w] = @ + 1] /\ UNCHANGED cur
+                  /\ IF LockPerPart THEN pc' = [pc EXCEPT ![w] = "relock"] /\ lock' = (IF UseLock THEN 0 ELSE lock)
+                     ELSE pc' = [pc EXCEPT ![w] = "locked"] /\ UNCHANGED lock
              ELSE /\ part' = [part EXCEPT ![w] = 1] /\ cur' = [cur EXCEPT ![w] = @ + 1]
                   /\ pc' = [pc EXCEPT ![w] = "idle"] /\ lock' = (IF UseLock THEN 0 ELSE lock)
 Next == \E w \in Writers : Acquire(w) \/ Begin(w) \/ End(w)
